@@ -193,8 +193,12 @@ class NUTS(Sampler):
             raise ValueError('Target must have logd and gradient methods.')
 
     def reinitialize(self):
+        # max_depth is a state key and would be reset to its default value
+        # by the parent method, so we keep the value the sampler was given
+        max_depth = self.max_depth
         # Call the parent reset method
         super().reinitialize()
+        self.max_depth = max_depth
         # Reset NUTS run diagnostic attributes
         self._reset_run_diagnostic_attributes()
 
